@@ -22,14 +22,12 @@ THEOREMS = [f'Gnpy.Slots.{t}' for t in (
     'slots_roundtrip', 'frequency_roundtrip', 'bitmap_length', 'usable_iff_in_common_band', 'inBands_iff_frequency',
     'align_index_unique', 'align_preserves_occupancy', 'oms_partition', 'reversed_endpoints', 'reversed_involution',
     'bitmap_length_fails_old', 'insert_right_dup_old', 'createOmsBitmap_spec', 'bandCells_spec', 'insertLeft_spec',
-    'insertRight_spec', 'alignOne_spec', 'alignGrids_spec', 'nodup_intRange')]
+    'insertRight_spec', 'alignOne_spec', 'alignGrids_spec', 'nodup_intRange', 'common_band_is_intersection',
+    'commonRange_no_amp')]
 PARTIAL = ['oms_partition is stated on the chain abstraction: the walk over the DiGraph that cuts the network into line '
            'systems (ROADM, line elements, ROADM) is not modelled; "each line element belongs to exactly one OMS" follows '
            'from the theorem when each line element lies in exactly one line system, which the monitor checks on the '
-           'real network object for every generated network (partition, adjacency along the route, back references)',
-           'the common band of an OMS (find_common_range) is modelled and under correspondence, but the theorem '
-           'usable_iff_in_common_band takes the band list as given; that find_common_range returns the set-theoretic '
-           'intersection is checked by the monitor with exact integer probes between all band edges']
+           'real network object for every generated network (partition, adjacency along the route, back references)']
 RULE = ('one PRNG; (a) 40 %: generated networks of 2-4 (thorough: up to 6) ROADMs, line or ring, every OMS with its own '
         'amplifier profile from the multiband library (C, C medium, L, reduced C band, three C+L multiband models), user '
         'amplifier models with explicit band edges (12 % of them off the 6.25 GHz grid), mixed models inside one OMS, '
@@ -633,3 +631,26 @@ def shrink_candidates(case):
                 c = copy.deepcopy(case)
                 del c['bitmaps'][i]
                 yield c
+
+
+def exhaustive():
+    """ALL layouts of one or two bands with edges on the 13 grid points of a 12-slot line that straddles 193.1 THz
+    (n = -6..6), each with on-grid edges and with the edges moved 1 GHz inwards/outwards off the grid, inside a map that
+    fits exactly or has one extra slot on each side; and all pairs of maps with extents inside n = -3..3 through
+    align_grids."""
+    import itertools
+    pts = list(range(-6, 7))
+    for k in (1, 2):
+        for edges in itertools.combinations(pts, 2 * k):
+            for dlo, dhi in ((0, 0), (10 ** 9, 0), (0, -10 ** 9), (-10 ** 9, 10 ** 9)):
+                bands = [[ANCHOR + edges[2 * i] * GRID + dlo, ANCHOR + edges[2 * i + 1] * GRID + dhi] for i in range(k)]
+                for pad in (0, 1):
+                    yield {'kind': 'unit', 'op': 'bitmap', 'bands': bands, 'f_min': ANCHOR + (-6 - pad) * GRID,
+                           'f_max': ANCHOR + (6 + pad) * GRID, 'grid': GRID}
+    ext = [(a, b) for a in range(-3, 4) for b in range(a, 4)]
+    for (a1, b1) in ext:
+        for (a2, b2) in ext:
+            yield {'kind': 'align', 'bitmaps': [
+                {'f_min': ANCHOR + a1 * GRID, 'f_max': ANCHOR + b1 * GRID, 'guardband': GB, 'grid': GRID,
+                 'cells': ('10u' * 3)[:b1 - a1 + 1]},
+                {'f_min': ANCHOR + a2 * GRID, 'f_max': ANCHOR + b2 * GRID, 'guardband': 0, 'grid': GRID, 'cells': None}]}
